@@ -29,7 +29,7 @@ def gen_cp_case(rng, nranks=None, **more):
     case = C.gen_with(rng, lambda c: C.every_rank_has_device(c) and all(has_linked_launch(ev) for ev in c["ranks"].values()), nranks=nranks, sync_rate=sync_rate, event_rate=event_rate, **({"nstreams": rng.choice([2, 2, 3])} if (event_rate or (sync_rate and rng.random() < 0.7)) else {}), **({"long_idle": True} if rng.random() < 0.06 else {}), **more,
                       missing_rate=rng.choice([0.0, 0.0, 0.1]), nsteps=rng.choice([0, 1, 2, 3]),
                       zero_rate=rng.choice([0.0, 0.1, 0.2]), two_threads=two_with_syncs or (sync_rate == 0.0 and (focus or rng.random() < (0.6 if event_rate else 0.4))),
-                      sync_ties=two_with_syncs and rng.random() < 0.6,
+                      sync_ties=two_with_syncs and rng.random() < 0.6, early_record=0.45,
                       **({"share_streams": 0.9, "launch_rate": 0.6, "top_ops": 4} if focus else ({"share_streams": 0.7} if (event_rate or two_with_syncs) and rng.random() < 0.7 else {})))
     G.add_sync_records(rng, case)
     steps = sorted({e["name"] for ev in case["ranks"].values() for e in ev if str(e.get("name", "")).startswith("ProfilerStep#")})
